@@ -125,7 +125,12 @@ for _p in HOSTILE:
     ast.parse(_p)
 PROGS = COMMENTED + [PROGRAMS[i] for i in (11, 20, 21, 22, 23, 24, 25, 26, 27, 28, 37, 38)] + HOSTILE
 LC_PROGS = list(range(len(COMMENTED))) + list(range(len(PROGS) - len(HOSTILE), len(PROGS)))
+MB_TAILS = [  # name lists and sequences behind multi-byte text on the same line (character columns are not byte columns)
+    "def f():\n    global é, b, c, d  # c0\n    s = 'éé'; global ñandú, x, y  # c1\n    def g():\n        nonlocal s; t = 'ü'; del é, b, (c)  # c2",
+    "from módulo import añadir, b, c  # c0\nimport ü.ö, b, c as é  # c1\nz = ['é', a, b]; w = {'ñ': a, b: c}  # c2",
+]
 PROGS = PROGS + [PROGRAMS[i].replace(': pass', ':\n    pass') if i == 56 else PROGRAMS[i] for i in (56, 57, 58, 59)]  # later shared programs go to the end (positional case ids); bodies on their own lines (the line oracle does not split a header line)
+PROGS = PROGS + MB_TAILS
 
 OPTS = [{}, {'trivia': False}, {'trivia': 'all'}, {'trivia': ('all', 'all')}, {'trivia': 'block+1'}, {'trivia': ('none', 'none')},
         {'pep8space': False}, {'elif_': False}, {'docstr': False}]
@@ -459,6 +464,12 @@ def token_expectation(src, tree, op):
         lst = getattr(par, op['field'], None)
         i = op.get('start', op.get('idx'))
         j = op.get('stop', i)
+        if isinstance(par, (ast.Global, ast.Nonlocal)) and op['field'] == 'names' and isinstance(i, int) and isinstance(j, int) and 0 <= i <= j <= len(lst):
+            a, b = start(par), end(par)  # a list of identifiers: the statement's payload is its keyword and its names
+            mid = [t[0] for t in old if t[1] >= a and t[2] <= b]
+            if mid[1:] != list(lst):
+                return None
+            return ('exact', [t[0] for t in old if t[2] <= a] + mid[:1 + i] + ctoks + mid[1 + j:] + [t[0] for t in old if t[1] >= b])
         if not isinstance(lst, list) or not isinstance(i, int) or not isinstance(j, int) or i < 0 or j < i or j > len(lst) or \
                 not all(hasattr(x, 'lineno') or isinstance(x, ast.match_case) for x in lst):
             return None
